@@ -75,7 +75,25 @@ def guard_case(rep, drv, rnd, i):
         ('pickf', [V('L')], ('conj', ('call', 'findall', [V('X'), ('F', 'it', [V('X')]), V('L')]), ('conj', ('call', 'it', [V('Y')]), 'cut')), True),
         ('pickn', [V('X')], ('conj', ('call', 'it', [V('X')]), ('conj', ('call', '\\=', [V('X'), ('A', atoms[0])]), 'cut')), True),
     ]
+    # a cut far down a long body (beyond a dozen goals), and a cut in front of a goal that binds a head argument
+    nlong = rnd.randint(12, 17)
+    long_body = 'cut'
+    if rnd.random() < 0.5:
+        long_body = ('conj', 'cut', ('call', 'it', [('_',)]))
+    for _ in range(nlong):
+        long_body = ('conj', ('call', 'it', [('_',)]) if rnd.random() < 0.3 else 'tru', long_body)
+    prog += [('lg', [V('X')], ('conj', ('call', 'it', [V('X')]), long_body), True), ('lg', [('A', 'last')], 'tru'),
+             ('st', [V('P'), V('S')], ('conj', ('call', 'it', [V('P')]), ('conj', 'cut', ('call', '=', [V('S'), ('A', 'member')]))), True),
+             ('st', [('_',), ('A', 'guest')], 'tru'),
+             ('st2', [V('S'), V('P')], ('conj', ('call', 'it', [V('P')]), ('conj', ('call', '=', [V('S'), ('A', 'first')]), ('conj', 'cut', ('call', '=', [V('P'), V('Q')])))), True),
+             ('st2', [('A', 'other'), ('_',)], 'tru')]
     ops = [('load', 'overwrite', prog)]
+    ops.append(('query', 'lg', ('all',), [[Sym('v'), 0]]))
+    for a2 in ['guest', 'member']:
+        ops.append(('query', 'st', ('all',), [[Sym('a'), atoms[0]], [Sym('a'), a2]]))
+        ops.append(('query', 'st', ('all',), [[Sym('a'), 'nobody'], [Sym('a'), a2]]))
+    ops.append(('query', 'st', ('all',), [[Sym('v'), 0], [Sym('v'), 1]]))
+    ops.append(('query', 'st2', ('all',), [[Sym('a'), 'other'], [Sym('v'), 1]]))
     for a in rnd.sample(atoms, rnd.randint(2, 3)):
         ops.append(('assert', 'item', 'z', [[Sym('a'), a]]))
     for name in ['take', 'pickc', 'picko', 'pickf', 'pickn']:
